@@ -1,0 +1,12 @@
+//go:build verif
+
+package shimagent
+
+// Contracts for the verification framework in /verif (comment-only file,
+// compiled only with -tags verif; see /verif/DESIGN.md).
+
+//@ func (*Server).Broadcast(s, msg)
+//@   flag logged
+//@   requires s != nil
+//@   modifies all
+//@   ensures result == nil
